@@ -421,8 +421,17 @@ def install_vec(I: Interp):
     E["numpy.argmin"] = argext("argmin")
     E["numpy.searchsorted"] = lambda I, a, k, n: Num.atom(f"searchsorted({I.describe(a[0])},{I.describe(a[1])})")
     E["numpy.isclose"] = lambda I, a, k, n: UnknownBool(f"isclose({I.describe(a[0])},{I.describe(a[1])})")
-    E["scipy.stats.linregress"] = lambda I, a, k, n: tuple(Num.atom(f"linregress.{nm}({I.describe(a[0])},{I.describe(a[1])})")
-                                                             for nm in ("slope", "intercept", "corr", "p", "stderr"))
+    def _linregress(I, a, k, n):
+        from .absint import Obj
+        vals = tuple(Num.atom(f"linregress.{nm}({I.describe(a[0])},{I.describe(a[1])})") for nm in ("slope", "intercept", "corr", "p", "stderr"))
+        if getattr(I, "sympy_mode", False):
+            from .absint import num_to_sym
+            vals = tuple(num_to_sym(v) for v in vals)
+        # scipy's result unpacks like a 5-tuple and has named fields
+        return Obj(kind="LinregressResult", label="linregress", attrs=dict(zip(("slope", "intercept", "rvalue", "pvalue", "stderr"), vals), _vals=vals))
+    E["scipy.stats.linregress"] = _linregress
+    M[("LinregressResult", "__iter__")] = lambda I, v, a, k, n: list(v.attrs["_vals"])
+    M[("LinregressResult", "__getitem__")] = lambda I, v, a, k, n: v.attrs["_vals"][a[0]] if isinstance(a[0], slice) else v.attrs["_vals"][int(I.to_py(a[0], n))]
     I.vec_binop = True
 
 
